@@ -55,6 +55,7 @@ type oracles struct {
 
 	attachedAfter map[int]map[string]bool // step -> converters attached to some tag after that step
 	secondLives   int
+	ackMarks      map[string]map[uint64]bool // mark tag -> streams added by acknowledged calls
 	apiLogStart   int
 	apiLogLines   map[int]bool // lines of the converter invocation log written during API calls
 
@@ -384,6 +385,21 @@ func (o *oracles) afterAPI(op Op, r OpResult) {
 	case "ReleaseView":
 		delete(o.held, op.V)
 	case "StreamData":
+		// a view is a snapshot: a stream that did not exist when it was opened is
+		// not reachable through it, whatever was imported since
+		if hv := o.held[op.V]; hv != nil && r.Err == "" && r.Found && o.on("C10", "C13", "C05", "C07", "C08") {
+			inView := false
+			for _, sl := range hv.first.Streams {
+				if sl.ID == op.Stream {
+					inView = true
+				}
+			}
+			if !inView && hv.first.Err == "" {
+				if o.violate("view", "foreign-stream", fmt.Sprintf("view %d (opened at step %d, %d streams) returns stream %d, which it does not list", op.V, hv.openStep, len(hv.first.Streams), op.Stream)) {
+					return
+				}
+			}
+		}
 		o.onDemandNote = ""
 		if op.Conv != "" && r.Err == "" && r.Found {
 			// was the view the user converted through still current for that stream?
